@@ -51,11 +51,12 @@ type plObs struct {
 }
 
 type roundObs struct {
-	Err   bool    `json:"err"`
-	Pls   []plObs `json:"pls"`
-	ReErr bool    `json:"re_err"`
-	ReOps int     `json:"re_ops"`
-	Aux   string  `json:"aux,omitempty"`
+	StatesBefore [][]cstate `json:"states_before"`
+	Err          bool       `json:"err"`
+	Pls          []plObs    `json:"pls"`
+	ReErr        bool       `json:"re_err"`
+	ReOps        int        `json:"re_ops"`
+	Aux          string     `json:"aux,omitempty"`
 }
 
 func plID(n int) string { return fmt.Sprintf("pl%d", n) }
@@ -169,6 +170,9 @@ func runDir(c caseIn) ([]plObs, []roundObs) {
 			}
 		}
 		var o roundObs
+		for _, p := range observeAll(e, nil) {
+			o.StatesBefore = append(o.StatesBefore, p.States)
+		}
 		var per map[string][]provx.Op
 		o.Err, per, o.Aux = initOnce(e, faults)
 		o.Pls = observeAll(e, per)
@@ -230,7 +234,11 @@ func coqDirCase(f flags, c caseIn, obs0 []plObs, obs []roundObs) string {
 	}
 	os := make([]string, len(obs))
 	for i, o := range obs {
-		os[i] = fmt.Sprintf("(mkRObs %s %s %s %d)", hx.Bool(o.Err), coqPlObsList(o.Pls), hx.Bool(o.ReErr), o.ReOps)
+		sb := make([]string, len(o.StatesBefore))
+		for j, x := range o.StatesBefore {
+			sb[j] = coqStates(x)
+		}
+		os[i] = fmt.Sprintf("(mkRObs %s %s %s %s %d)", hx.List(sb), hx.Bool(o.Err), coqPlObsList(o.Pls), hx.Bool(o.ReErr), o.ReOps)
 	}
 	return fmt.Sprintf("Dir (mkFlags %s %s %s %s) %s %s %s %s", hx.Bool(f.CopyIDs), hx.Bool(f.ExpCond), hx.Bool(f.UpdCond),
 		hx.Bool(f.RestoreState), hx.List(api), hx.List(rounds), coqPlObsList(obs0), hx.List(os))
